@@ -1,4 +1,207 @@
+/-
+  Property C06 — every emitted packet is well-formed and authenticated for its
+  recipient. Serializer theorems (radmsg2buf), for every hash function with
+  16-octet output; the emission sites of the World model all go through it.
+-/
+import Rsp.Lemmas.Serialize
 import Rsp.Model.World
-import Rsp.Spec.Emit
 namespace Rsp.Props.C06
+open Rsp Rsp.Radmsg Rsp.Spec
+
+theorem tlv2buf_length (a : Tlv) : (tlv2buf a).length = 2 + a.v.length := by
+  simp [tlv2buf]; omega
+
+theorem attrsBytes_length (as : List Tlv) : (attrsBytes as).length = (as.map fun a => 2 + a.v.length).sum := by
+  induction as with
+  | nil => rfl
+  | cons a t ih =>
+    simp only [attrsBytes, List.flatMap_cons, List.length_append, tlv2buf_length, List.map_cons, List.sum_cons]
+    unfold attrsBytes at ih; rw [ih]
+
+theorem lastMsgAuthPos_ge (as : List Tlv) (off : Nat) (acc : Option Nat) (pos : Nat)
+    (hacc : ∀ p, acc = some p → p + 16 ≤ off ∨ True) (h : lastMsgAuthPos as off acc = some pos) :
+    (acc = some pos) ∨ off + 2 ≤ pos := by
+  induction as generalizing off acc with
+  | nil => left; simpa [lastMsgAuthPos] using h
+  | cons a t ih =>
+    simp only [lastMsgAuthPos] at h
+    have := ih (off + 2 + a.v.length) _ (fun _ _ => Or.inr trivial) h
+    rcases this with h1 | h1
+    · by_cases h80 : a.t = 80
+      · simp only [h80, if_true] at h1
+        right; have := Option.some.inj h1; omega
+      · simp only [h80, if_false] at h1; left; exact h1
+    · right; omega
+
+theorem rawPacket_length (m : Msg) (ha : m.auth.length = 16) :
+    (rawPacket m).length = 20 + attrsSize m := by
+  simp [rawPacket, attrsBytes_length, attrsSize, ha]; omega
+
+theorem rawPacket_auth (m : Msg) (ha : m.auth.length = 16) : ((rawPacket m).drop 4).take 16 = m.auth := by
+  unfold rawPacket
+  have : (m.code :: m.id :: beEnc 2 (20 + attrsSize m)).length = 4 := by simp
+  rw [List.append_assoc, List.drop_left' this, List.take_left' ha]
+
+section
+variable (H : Hashes) (hmd5 : ∀ x, (H.md5 x).length = 16) (hhmac : ∀ k x, (H.hmacMd5 k x).length = 16)
+include hmd5 hhmac
+
+omit hmd5 in
+theorem stage1_props (m : Msg) (sec b1 : Bytes) (ha : m.auth.length = 16) (h : stage1 H m sec = some b1) :
+    b1.length = (rawPacket m).length ∧ b1.take 4 = (rawPacket m).take 4 ∧ (b1.drop 4).take 16 = m.auth ∧
+    (∀ pos, lastMsgAuthPos m.attrs 20 none = some pos → macOk H b1 pos sec = true) := by
+  unfold stage1 at h
+  have hlen := rawPacket_length m ha
+  cases hp : lastMsgAuthPos m.attrs 20 none with
+  | none =>
+    simp only [hp] at h; cases h
+    exact ⟨rfl, rfl, rawPacket_auth m ha, by intro pos h'; cases h'⟩
+  | some pos =>
+    simp only [hp] at h
+    have hge : 22 ≤ pos := by
+      have := lastMsgAuthPos_ge m.attrs 20 none pos (fun _ _ => Or.inr trivial) hp
+      rcases this with h1 | h1
+      · cases h1
+      · omega
+    split at h
+    · cases h
+    · next hle =>
+      cases h
+      have hz16 : (zeros 16).length = 16 := by simp [zeros]
+      have hfit : pos + 16 ≤ (rawPacket m).length := by rw [hlen]; omega
+      have hzl : (splice (rawPacket m) pos (zeros 16)).length = (rawPacket m).length :=
+        splice_length _ _ _ (by rw [hz16]; exact hfit)
+      have hmacl := hhmac sec (splice (rawPacket m) pos (zeros 16))
+      refine ⟨?_, ?_, ?_, ?_⟩
+      · rw [splice_length _ _ _ (by rw [hmacl, hzl]; exact hfit), hzl]
+      · rw [(splice_other_regions _ _ pos (by omega) (by rw [hmacl, hzl]; exact hfit)).1,
+            (splice_other_regions _ _ pos (by omega) (by rw [hz16]; exact hfit)).1]
+      · rw [(splice_other_regions _ _ pos (by omega) (by rw [hmacl, hzl]; exact hfit)).2,
+            (splice_other_regions _ _ pos (by omega) (by rw [hz16]; exact hfit)).2]
+        exact rawPacket_auth m ha
+      · intro pos' hp'
+        cases hp'
+        unfold macOk
+        rw [splice_splice _ _ _ pos (by rw [hmacl, hz16]) (by rw [hz16, hzl]; exact hfit),
+            splice_splice _ _ _ pos rfl (by rw [hz16]; exact hfit)]
+        have := splice_get (splice (rawPacket m) pos (zeros 16)) (H.hmacMd5 sec (splice (rawPacket m) pos (zeros 16))) pos
+          (by rw [hmacl, hzl]; exact hfit)
+        rw [hmacl] at this
+        rw [this]; simp
+
+omit hmd5 hhmac in
+/-- `serialize` with a secret, unfolded -/
+theorem serialize_eq (m : Msg) (sec : Bytes) :
+    serialize H m (some sec) =
+      if 20 + attrsSize m > maxLen then .fail
+      else match stage1 H m sec with
+        | none => .fault
+        | some b1 =>
+          if signedCode m.code then
+            .ok (splice b1 4 (H.md5 (b1 ++ sec))) (if m.code = 4 then H.md5 (b1 ++ sec) else m.auth)
+          else .ok b1 m.auth := by
+  unfold serialize; rfl
+
+/-- **Length.** Every packet the serializer produces has a length field equal to
+    its size, and the size is within 20..4096. -/
+theorem serialize_length (m : Msg) (sec b a' : Bytes) (ha : m.auth.length = 16)
+    (h : serialize H m (some sec) = .ok b a') :
+    b.length = 20 + attrsSize m ∧ 20 ≤ b.length ∧ b.length ≤ 4096 ∧
+    beVal ((b.drop 2).take 2) = b.length := by
+  rw [serialize_eq H] at h
+  split at h
+  · cases h
+  · next hsz =>
+    cases hs : stage1 H m sec with
+    | none => simp [hs] at h
+    | some b1 =>
+      obtain ⟨hl, ht, _, _⟩ := stage1_props H hhmac m sec b1 ha hs
+      have hraw := rawPacket_length m ha
+      have hb : b.length = b1.length ∧ b.take 4 = b1.take 4 := by
+        simp only [hs] at h
+        split at h
+        · cases h
+          have h16 := hmd5 (b1 ++ sec)
+          exact ⟨splice_length _ _ _ (by rw [h16, hl, hraw]; omega), splice_take _ _ 4 4 (Nat.le_refl _) (by rw [h16, hl, hraw]; omega)⟩
+        · cases h; exact ⟨rfl, rfl⟩
+      have hsz' : 20 + attrsSize m ≤ 4096 := by
+        simp only [maxLen] at hsz; omega
+      refine ⟨by rw [hb.1, hl, hraw], by rw [hb.1, hl, hraw]; omega, by rw [hb.1, hl, hraw]; exact hsz', ?_⟩
+      -- the length field
+      have hfield : (b.drop 2).take 2 = ((b.take 4).drop 2) := by
+        rw [List.drop_take]
+      rw [hfield, hb.2, ht]
+      unfold rawPacket
+      simp only [List.cons_append, List.take_succ_cons, List.drop_succ_cons, List.drop_zero]
+      have : (beEnc 2 (20 + attrsSize m) ++ m.auth ++ attrsBytes m.attrs).take 2 =
+             beEnc 2 (20 + attrsSize m) := by
+        rw [List.append_assoc, List.take_left' (by simp)]
+      rw [this, beVal_beEnc, hb.1, hl, hraw]
+      exact Nat.mod_eq_of_lt (by omega)
+
+/-- **Response / request authenticator.** For the signed codes the authenticator
+    field is MD5(code,id,length ‖ msg.auth ‖ attributes ‖ secret): a valid Response
+    Authenticator when msg.auth is the client's Request Authenticator, a valid
+    Accounting-Request authenticator when msg.auth is sixteen zero octets. -/
+theorem serialize_resp_auth (m : Msg) (sec b a' : Bytes) (ha : m.auth.length = 16)
+    (hcode : signedCode m.code = true)
+    (h : serialize H m (some sec) = .ok b a') :
+    respAuthValid H b m.auth sec = true := by
+  rw [serialize_eq H] at h
+  split at h
+  · cases h
+  · cases hs : stage1 H m sec with
+    | none => simp [hs] at h
+    | some b1 =>
+      obtain ⟨hl, _, hauth, _⟩ := stage1_props H hhmac m sec b1 ha hs
+      have hraw := rawPacket_length m ha
+      simp only [hs, hcode, if_true] at h
+      cases h
+      have h16 := hmd5 (b1 ++ sec)
+      have hfit : 4 + (H.md5 (b1 ++ sec)).length ≤ b1.length := by rw [h16, hl, hraw]; omega
+      unfold respAuthValid
+      rw [splice_take _ _ 4 4 (Nat.le_refl _) hfit, splice_drop _ _ 4 20 (by rw [h16]; omega) hfit]
+      have hget := splice_get b1 (H.md5 (b1 ++ sec)) 4 hfit
+      rw [h16] at hget
+      rw [hget]
+      -- b1 = b1.take 4 ++ msg.auth ++ b1.drop 20
+      have hb1 : b1.take 4 ++ m.auth ++ b1.drop 20 = b1 := by
+        rw [← hauth]
+        have : b1.take 4 ++ (b1.drop 4).take 16 = b1.take 20 := by
+          rw [show (20 : Nat) = 4 + 16 by rfl, List.take_add]
+        rw [this, List.take_append_drop]
+      rw [hb1]
+      simp
+
+/-- **Message-Authenticator.** The (last) Message-Authenticator of the emitted
+    packet equals HMAC-MD5 over the packet with msg.auth in the authenticator
+    field and the attribute's value zeroed. -/
+theorem serialize_msgauth (m : Msg) (sec b a' : Bytes) (pos : Nat) (ha : m.auth.length = 16)
+    (hpos : lastMsgAuthPos m.attrs 20 none = some pos)
+    (h : serialize H m (some sec) = .ok b a') :
+    macOk H (splice b 4 m.auth) pos sec = true := by
+  rw [serialize_eq H] at h
+  split at h
+  · cases h
+  · cases hs : stage1 H m sec with
+    | none => simp [hs] at h
+    | some b1 =>
+      obtain ⟨hl, _, hauth, hmac⟩ := stage1_props H hhmac m sec b1 ha hs
+      have hraw := rawPacket_length m ha
+      have hb1 : splice b1 4 m.auth = b1 := by
+        unfold splice
+        rw [ha, ← hauth]
+        have : b1.take 4 ++ (b1.drop 4).take 16 = b1.take 20 := by
+          rw [show (20 : Nat) = 4 + 16 by rfl, List.take_add]
+        rw [this, List.take_append_drop]
+      simp only [hs] at h
+      split at h
+      · cases h
+        have h16 := hmd5 (b1 ++ sec)
+        rw [splice_splice _ _ _ 4 (by rw [h16, ha]) (by rw [ha, hl, hraw]; omega), hb1]
+        exact hmac pos hpos
+      · cases h
+        rw [hb1]; exact hmac pos hpos
+
+end
 end Rsp.Props.C06
